@@ -42,7 +42,7 @@ template <class WG> struct CountW {
 
 static inline bool isAlgoVerb(const std::string &v) {
     return v == "bfs" || v == "allpred" || v == "geodesic" || v == "allgeodesics" || v == "geodesicsfrom" ||
-           v == "allgeodesicsfrom" || v == "dijkstra";
+           v == "allgeodesicsfrom" || v == "dijkstra" || v == "pathto" || v == "pathto3" || v == "allpathsto" || v == "allpathsto3";
 }
 template <class Gr> static std::string showVE(const Gr &g) {
     size_t e = 0;
@@ -95,6 +95,36 @@ template <class Gr> static bool runAlgo(const Gr &g0, const std::string &verb, c
     }
     if (verb == "allgeodesics" && a.size() == 2 && pv(a[0], s) && pv(a[1], t)) {
         out = "R " + guard([&] { return "ok paths: " + showPaths(algorithms::findAllGeodesics(g0, s, t)); }) + "\n";
+        return true;
+    }
+    // the public reconstruction functions called directly, on the predecessors of a search from `ps`
+    VertexIndex ps;
+    if (verb == "pathto" && a.size() == 3 && pv(a[0], ps) && pv(a[1], s) && pv(a[2], t)) {
+        out = "R " + guard([&] {
+            auto pr = algorithms::findVertexPredecessors(g0, ps);
+            return "ok path: " + showPath(algorithms::findPathToVertexFromPredecessors(g0, s, t, pr));
+        }) + "\n";
+        return true;
+    }
+    if (verb == "pathto3" && a.size() == 2 && pv(a[0], ps) && pv(a[1], t)) {
+        out = "R " + guard([&] {
+            auto pr = algorithms::findVertexPredecessors(g0, ps);
+            return "ok path: " + showPath(algorithms::findPathToVertexFromPredecessors(g0, t, pr));
+        }) + "\n";
+        return true;
+    }
+    if (verb == "allpathsto" && a.size() == 3 && pv(a[0], ps) && pv(a[1], s) && pv(a[2], t)) {
+        out = "R " + guard([&] {
+            auto pr = algorithms::findAllVertexPredecessors(g0, ps);
+            return "ok paths: " + showPaths(algorithms::findMultiplePathsToVertexFromPredecessors(g0, s, t, pr));
+        }) + "\n";
+        return true;
+    }
+    if (verb == "allpathsto3" && a.size() == 2 && pv(a[0], ps) && pv(a[1], t)) {
+        out = "R " + guard([&] {
+            auto pr = algorithms::findAllVertexPredecessors(g0, ps);
+            return "ok paths: " + showPaths(algorithms::findMultiplePathsToVertexFromPredecessors(g0, t, pr));
+        }) + "\n";
         return true;
     }
     if (verb == "geodesicsfrom" && a.size() == 1 && pv(a[0], s)) {
